@@ -49,7 +49,7 @@ pub enum Word {
     W32(u32),
 }
 
-#[derive(Clone, Debug, Serialize, Deserialize, PartialEq, Eq)]
+#[derive(Clone, Debug, Serialize, Deserialize)]
 pub struct TapeRng {
     pub script: Vec<u64>,
     pub pos: usize,
@@ -57,6 +57,8 @@ pub struct TapeRng {
     pub log: Vec<Word>,
     pub logging: bool,
     pub fill_bytes_calls: usize,
+    #[serde(skip)]
+    pub shared: Option<std::sync::Arc<std::sync::Mutex<Vec<Word>>>>,
 }
 
 impl TapeRng {
@@ -68,6 +70,7 @@ impl TapeRng {
             log: vec![],
             logging: true,
             fill_bytes_calls: 0,
+            shared: None,
         }
     }
     pub fn scripted(script: Vec<u64>, seed: u64) -> Self {
@@ -84,6 +87,11 @@ impl TapeRng {
             self.fallback.next()
         }
     }
+    pub fn shared(mut self) -> (Self, std::sync::Arc<std::sync::Mutex<Vec<Word>>>) {
+        let h = std::sync::Arc::new(std::sync::Mutex::new(vec![]));
+        self.shared = Some(h.clone());
+        (self, h)
+    }
     pub fn take_log(&mut self) -> Vec<Word> {
         std::mem::take(&mut self.log)
     }
@@ -94,6 +102,9 @@ impl RngCore for TapeRng {
         let v = (self.raw() >> 32) as u32;
         if self.logging {
             self.log.push(Word::W32(v));
+            if let Some(s) = &self.shared {
+                s.lock().unwrap().push(Word::W32(v));
+            }
         }
         v
     }
@@ -101,6 +112,9 @@ impl RngCore for TapeRng {
         let v = self.raw();
         if self.logging {
             self.log.push(Word::W64(v));
+            if let Some(s) = &self.shared {
+                s.lock().unwrap().push(Word::W64(v));
+            }
         }
         v
     }
